@@ -1,0 +1,48 @@
+//go:build verif
+
+package stake
+
+import (
+	"github.com/rigochain/rigo-go/types/xerrors"
+)
+
+// VerifFrozenAt returns every unbonding stake committed at `height` (read-only).
+func (ctrler *StakeCtrler) VerifFrozenAt(height int64) ([]*Stake, xerrors.XError) {
+	immu, xerr := ctrler.frozenLedger.ImmutableLedgerAt(height, 0)
+	if xerr != nil {
+		return nil, xerr
+	}
+	var ret []*Stake
+	xerr = immu.IterateReadAllItems(func(s *Stake) xerrors.XError {
+		ret = append(ret, s)
+		return nil
+	})
+	return ret, xerr
+}
+
+// VerifDelegateesAt returns every delegatee committed at `height` (read-only).
+func (ctrler *StakeCtrler) VerifDelegateesAt(height int64) ([]*Delegatee, xerrors.XError) {
+	immu, xerr := ctrler.delegateeLedger.ImmutableLedgerAt(height, 0)
+	if xerr != nil {
+		return nil, xerr
+	}
+	var ret []*Delegatee
+	xerr = immu.IterateReadAllItems(func(d *Delegatee) xerrors.XError {
+		ret = append(ret, d)
+		return nil
+	})
+	return ret, xerr
+}
+
+// VerifCloseLeaked closes the store handles that Close() leaves open, so that a
+// harness process running many short-lived nodes does not accumulate descriptors.
+func (ctrler *StakeCtrler) VerifCloseLeaked() {
+	if ctrler.rewardLedger != nil {
+		_ = ctrler.rewardLedger.Close()
+		ctrler.rewardLedger = nil
+	}
+	if ctrler.rwdHashDB != nil {
+		_ = ctrler.rwdHashDB.Close()
+		ctrler.rwdHashDB = nil
+	}
+}
